@@ -285,6 +285,10 @@ def run(repo: Repo, chk: Check):
     chk.guarded(r03k, repo, chk)
     chk.guarded(r03i, repo, chk)
     chk.guarded(r03j, repo, chk)
+    chk.rule("R03.l", "a folded value reaches the program text unchanged: IC10Operand turns a float into an integer only when the float is exactly that "
+                      "integer, and no tolerance is applied (shared with R09.d)", floor=1)
+    from .c09 import r09_exact_integral
+    chk.guarded(r09_exact_integral, repo, chk, "R03.l")
 
 
 def r03h(repo: Repo, chk: Check):
